@@ -26,7 +26,7 @@ def mon_requests(tr, sc):
             plans = []
         if f and f[0] == "adopt":
             pending, sub_id = {}, {}
-        if f and f[0] == "call":
+        if f and f[0] == "call" and "noclient" not in lines:
             pending[f[1]] = f[2]
         if f and f[0] == "feed":
             for a in f[1:]:
@@ -103,6 +103,6 @@ def run(ctx):
     return SC.finish(ctx, v, stats, hist, samples, nd,
                      "concurrent Subscribe/Unsubscribe/Ping/Publish calls (goroutines parked by the harness), SUBACK/UNSUBACK/PINGRESP in "
                      "any order incl. late, duplicate, unsolicited, wrong count and illegal codes, connection loss, quit before/after "
-                     "submission, requests blocked inside conn.Write; every script ends with broker close + Close + ReadSlices, after which "
+                     "submission, requests blocked inside conn.Write and queued behind it on the write semaphore (answers arriving before the request waits); every script ends with broker close + Close + ReadSlices, after which "
                      "every request must have returned; SubscribeError is checked against the SUBACK sent for that request's identifier",
-                     SC.SESSION_ASSUMPTIONS + ["partial: the Ping slot hand-over race (F7) needs preemption between two statements; see known findings"])
+                     SC.SESSION_ASSUMPTIONS + ["partial: calls interleave only at the points where the harness can park a goroutine (lockWrite, conn.Write, response wait); preemption between two statements of one call is not explored"])
